@@ -113,6 +113,20 @@ def run(R, replay=None):
         multi = rng.random() < 0.3 and len(tops) >= 2
         if multi:
             targets = sorted(rng.sample(tops, min(len(tops), rng.randint(2, 3)))) + explicit
+        if rng.random() < 0.25:
+            # two sibling directories, the name of the first a string prefix of the second, both given as targets
+            a_, b_ = rng.choice([("src", "src2"), ("lib", "libexec"), ("pkg", "pkg_extra"), ("t", "tests")])
+            for dd in (a_, b_):
+                os.makedirs(os.path.join(root, dd), exist_ok=True)
+                for fn in ("m.py", "notes.txt"):
+                    pth = os.path.join(dd, fn)
+                    if pth not in files:
+                        open(os.path.join(root, pth), "w").write("x = 1\n")
+                        files.append(pth)
+                if dd not in dirs:
+                    dirs.append(dd)
+            multi = True
+            targets = [a_, b_] + explicit
         # exclusions that come from the configuration file (exclude_dirs), spelled with and without a trailing slash
         cfg_x = rng.choice([None, None, ["tests/"], ["test/", "docs/"], ["build"], ["sub/", "*.txt"], ["pkg/sub/"]])
         old = os.getcwd()
